@@ -74,7 +74,7 @@ package moq
 //@   loop 1 invariant {C20} names-so-far: forall(k, 0 <= k && k <= rangeIndex ==> mocks[k].InterfaceName == ifaceNameOf(namePairs[k]) && mocks[k].MockName == mockNameOf(namePairs[k]))
 //@   loop 2 invariant wf: wfK(m.registry)
 //@   loop 2 invariant jdx: j >= 0
-//@   ensures{C19} no-names: len(namePairs) == 0 ==> err != nil && errMsg(err) == "must specify one interface" && forallEv(i, !effectful(i))
+//@   ensures{C19} no-names: len(namePairs) == 0 ==> err != nil && forallEv(i, !effectful(i))
 //@   ensures{C17,C18} writes-only-w: forallEv(i, evKind(i, "io-write") ==> (evIs(i, "io.Writer.Write") && evArg(i, 0) == w) || (evIs(i, "call:template.Template.Execute") && fresh(evArg(i, 1))))
 //@   ensures{C17} write-is-last: forallEv(i, j, evIs(i, "io.Writer.Write") && j > i ==> !effectful(j))
 //@   ensures{C17} write-once: forallEv(i, j, evIs(i, "io.Writer.Write") && evIs(j, "io.Writer.Write") ==> i == j)
